@@ -295,6 +295,115 @@ def crash_stage(c):
     shutil.rmtree(tmp, ignore_errors=True)
 
 
+# ------------------------------------------------------------------ client-level calls under a crash
+def _client_calls():
+  """single-resource calls of the CLIENT LIBRARY (VizierClient): name -> callable(client).  Each is documented as
+  one update of one resource; the property lifts from RPCs to these calls only if each issues one writing RPC."""
+  from vizier import pyvizier as vz
+
+  def md_both(cl):
+    d = vz.MetadataDelta()
+    d.on_study.ns('exp')['stage'] = 'done'
+    d.on_trials[1].ns('exp')['tag'] = 'a'
+    d.on_trials[2].ns('exp')['tag'] = 'b'
+    cl.update_metadata(d)
+  return [
+      ('update_metadata(study+trials)', md_both),
+      ('complete_trial', lambda cl: cl.complete_trial(2, vz.Measurement(metrics={'obj': 1.0}))),
+      ('complete_trial(infeasible)', lambda cl: cl.complete_trial(2, None, infeasibility_reason='')),
+      ('report_intermediate_objective_value', lambda cl: cl.report_intermediate_objective_value(3, 1.5, [{'obj': 0.5}], trial_id=2)),
+      ('stop_trial', lambda cl: cl.stop_trial(2)),
+      ('delete_trial', lambda cl: cl.delete_trial(2)),
+      ('add_trial', lambda cl: cl.add_trial(vz.Trial(parameters={'x': 5.0}))),
+      ('set_study_state', lambda cl: cl.set_study_state(vz.StudyState.ABORTED)),
+      ('delete_study', lambda cl: cl.delete_study()),
+  ]
+
+
+def _client_child(dbfile, known, idx, die_at):
+  pid = os.fork()
+  if pid:
+    _, status = os.waitpid(pid, 0)
+    return os.WEXITSTATUS(status) if os.WIFEXITED(status) else -1
+  try:
+    from vizier._src.service import vizier_client
+    rr = open_runner(dbfile, known)
+    cl = vizier_client.VizierClient('owners/o/studies/s', 'w1', rr.sv)
+    tr = Tracer(rr.sv.datastore._engine, die_at=die_at)  # pylint: disable=protected-access
+    tr.active = True
+    try:
+      _client_calls()[idx][1](cl)
+    except SystemExit:
+      raise
+    except Exception:  # pylint: disable=broad-except
+      os._exit(0)                # a call the library refuses: nothing to tear
+    os._exit(0)
+  except BaseException:  # pylint: disable=broad-except
+    os._exit(3)
+
+
+def client_crash_stage(c):
+  from vizier._src.service import vizier_client
+  tmp = tempfile.mkdtemp(prefix='vverif_c05c_')
+  try:
+    prefix = PREFIXES[1]
+    base = os.path.join(tmp, 'base.db')
+    rr0 = open_runner(base)
+    for r in prefix:
+      rr0.step(r)
+    before = rr0.snapshot()
+    known = {'owners': sorted(set(rr0.owners + ['o'])), 'clients': sorted(set(rr0.clients + ['w1', 'w2', 'w9'])), 'es_ids': sorted(set(list(rr0.es_ids) + [1, 2, 3]))}
+    del rr0
+    calls = _client_calls()
+    if c.tier == 'quick':
+      calls = calls[:3] + calls[5:6]
+    for name, fn in calls:
+      idx = [n for n, _ in _client_calls()].index(name)
+      f0 = os.path.join(tmp, 'trace.db')
+      shutil.copy(base, f0)
+      rr = open_runner(f0, known)
+      cl = vizier_client.VizierClient('owners/o/studies/s', 'w1', rr.sv)
+      tr = Tracer(rr.sv.datastore._engine)  # pylint: disable=protected-access
+      tr.active = True
+      try:
+        fn(cl)
+        refused = None
+      except Exception as e:  # pylint: disable=broad-except
+        refused = type(e).__name__
+      tr.active = False
+      final = rr.snapshot()
+      del rr
+      n_events = len([e for e in tr.events if e[0] in ('stmt', 'commit')])
+      commits = len([e for e in tr.events if e[0] == 'commit'])
+      c.count(1, ('client-crash-call', name), kind='client-crash-call:' + name)
+      for k in range(n_events + 1):
+        f = os.path.join(tmp, 'crash.db')
+        for ext in ('', '-journal', '-wal', '-shm'):
+          if os.path.exists(f + ext):
+            os.remove(f + ext)
+        shutil.copy(base, f)
+        code = _client_child(f, known, idx, k)
+        if code not in (137, 0):
+          raise core.InfraError('client crash child failed with status %s' % code)
+        c.traces += 1
+        c.count(1, ('client-crash', name, k), kind='client-crash:' + name)
+        case = {'prefix': prefix, 'client_call': name, 'crash_before_event': k, 'of_events': n_events, 'commits_in_call': commits,
+                'events': [list(e) for e in tr.events if e[0] in ('stmt', 'commit')][:k + 1][-3:]}
+        try:
+          rec = open_runner(f, known).snapshot()
+        except Exception as e:  # pylint: disable=broad-except
+          c.prop_fail('unreadable-after-crash:client:' + name, 'after a crash before SQL event %d of the client call %s the restarted server cannot read its data: %r' % (k, name, e), case)
+          continue
+        case['recovered'] = rec
+        if rec != before and rec != final:
+          c.prop_fail('torn-single-resource-call:client:' + name,
+                      'a crash before SQL event %d of the client call %s (which commits %d times) left a state that is neither the old nor the new one' % (k, name, commits), case)
+        if k == n_events and rec != final:
+          c.prop_fail('acknowledged-change-lost:client:' + name, 'the client call returned but its effect is not on disk after restart', case)
+  finally:
+    shutil.rmtree(tmp, ignore_errors=True)
+
+
 def run(c):
   # translator: regenerate the transaction shape of every SQLDataStore method from the current source; the
   # kernel decides that every path is one transaction (Props/C05Txn.lean)
@@ -304,11 +413,12 @@ def run(c):
   c.coverage_extra['sql_transaction_shape'] = {k: [' '.join(p) for p in v] for k, v in table.items()}
   c.proof_stage()
   crash_stage(c)
+  client_crash_stage(c)
   svc.cleanup()
   c.coverage_extra['exhaustive'] = True
   c.coverage_extra['exhaustive_over'] = 'every SQL statement/commit event of every listed RPC after every listed prefix'
   return c.finish(
       level='proof',
-      rule='fault enumeration: process death (os._exit in a forked child) before EVERY SQL statement/commit event of each target RPC (suggest with over/under/failed delivery, create/complete/measure/stop/delete trial, update-metadata ok/failing, set-state, delete/create study, early-stop) after each prefix, on a SQLite file; distinct non-trivial = distinct (prefix, request, crash point)',
+      rule='fault enumeration: process death (os._exit in a forked child) before EVERY SQL statement/commit event of each target RPC (suggest with over/under/failed delivery, create/complete/measure/stop/delete trial, update-metadata ok/failing, set-state, delete/create study, early-stop) after each prefix, on a SQLite file; the same before every SQL event of single-resource calls of the client library (VizierClient.update_metadata with study and trial parts, complete_trial, ...); distinct non-trivial = distinct (prefix, request, crash point)',
       assumptions=['crash = process death; SQLite journal atomicity, fsync and the file system are trusted (no power loss)',
                    'the recovered state is compared with the model\'s crash states as a set (a failed, rolled-back write has no commit of its own)'])
